@@ -576,3 +576,103 @@ def protocol_version_problems(repo: Repo) -> Tuple[List[str], int]:
             elif isinstance(x, ast.BinOp) and isinstance(x.op, ast.BitAnd) and (is_field(x.left) or is_field(x.right)):
                 n += 1
     return sorted(set(probs)), n
+
+
+def loop_progress_problems(repo, modules=('pdu', 'userdataitems', 'fsm', 'dulprovider', 'dimsemessages', 'dsutils')):
+    """``while <test over locals>:`` loops of the peer-driven modules: on every path through the body that reaches the next test
+    (the end of the body, or a ``continue``) one of the locals the test reads has been assigned, or used as the receiver of a method
+    call (``stack.pop()``).  A path that comes back to the test with everything it reads unchanged is a
+    loop a peer can make endless (an offset that is not advanced before ``continue``).  Tests that read no local (``while True``,
+    ``while not self.stop``) or that call something themselves are not judged.  -> (problems, loops examined)"""
+    probs: List[str] = []
+    n_loops = 0
+
+    def touched(st, names):
+        out = set()
+        for x in ast.walk(st):
+            if isinstance(x, ast.Name) and isinstance(x.ctx, (ast.Store, ast.Del)) and x.id in names:
+                out.add(x.id)
+            elif isinstance(x, ast.Call):
+                recv = x.func.value if isinstance(x.func, ast.Attribute) else None
+                while isinstance(recv, ast.Attribute):
+                    recv = recv.value
+                if isinstance(recv, ast.Name) and recv.id in names:
+                    out.add(recv.id)
+        return out
+
+    def walk(stmts, done, names, report):
+        """-> the set of test names touched on fall-through, or None when no path falls through"""
+        cur = set(done)
+        for st in stmts:
+            if isinstance(st, ast.Continue):
+                if not cur:
+                    report(st)
+                return None
+            if isinstance(st, (ast.Break, ast.Return, ast.Raise)):
+                return None
+            if isinstance(st, ast.If):
+                cur |= touched(st.test, names)
+                a = walk(st.body, cur, names, report)
+                b = walk(st.orelse, cur, names, report) if st.orelse else set(cur)
+                if a is None and b is None:
+                    return None
+                cur = a if b is None else b if a is None else (a & b)
+            elif isinstance(st, (ast.For, ast.While, ast.AsyncFor)):
+                # an inner loop may run zero times; its own continue / break are its own
+                cur |= touched(st.iter, names) if hasattr(st, 'iter') else set()
+            elif isinstance(st, ast.Try):
+                a = walk(st.body, cur, names, report)
+                outs = [] if a is None else [a]
+                for h in st.handlers:
+                    b = walk(h.body, cur, names, report)
+                    if b is not None:
+                        outs.append(b)
+                if not outs:
+                    return None
+                cur = set.intersection(*outs)
+                if st.finalbody:
+                    f = walk(st.finalbody, cur, names, report)
+                    if f is None:
+                        return None
+                    cur = f
+            elif isinstance(st, (ast.With, ast.AsyncWith)):
+                for it in st.items:
+                    cur |= touched(it.context_expr, names)
+                a = walk(st.body, cur, names, report)
+                if a is None:
+                    return None
+                cur = a
+            else:
+                cur |= touched(st, names)
+        return cur
+
+    for mname in modules:
+        m = repo.modules.get(mname)
+        if m is None:
+            continue
+        for fi in repo.functions_of(m) if hasattr(repo, 'functions_of') else _all_functions(m):
+            bound = {x.id for x in ast.walk(fi.node) if isinstance(x, ast.Name) and isinstance(x.ctx, ast.Store)} | set(fi.params)
+            for w in [x for x in ast.walk(fi.node) if isinstance(x, ast.While)]:
+                if any(isinstance(x, (ast.Call, ast.Yield, ast.Await)) for x in ast.walk(w.test)):
+                    continue
+                names = {x.id for x in ast.walk(w.test) if isinstance(x, ast.Name) and x.id in bound and x.id not in ('self', 'cls')}
+                if not names or any(isinstance(x, (ast.Yield, ast.YieldFrom)) for st in w.body for x in ast.walk(st)):
+                    continue
+                n_loops += 1
+
+                def report(at, w=w, fi=fi, names=names):
+                    probs.append('%s: the loop at line %d tests %s, and the path to %s changes none of them: the same test is made '
+                                 'again on the same values' % (fi.loc(at), w.lineno, ', '.join(sorted(names)),
+                                                               'the ``continue`` at line %d' % at.lineno if isinstance(at, ast.Continue) else 'the end of its body'))
+                end = walk(w.body, set(), names, report)
+                if end is not None and not end:
+                    report(w.body[-1])
+    return sorted(set(probs)), n_loops
+
+
+def _all_functions(m):
+    out = list(m.functions.values())
+    for c in m.classes.values():
+        out.extend(c.methods.values())
+        out.extend(c.setters.values())
+    return out
